@@ -10,7 +10,15 @@ use runner::{harness_error, ChildArgs, Tier};
 macro_rules! with_check {
     ($id:expr, $c:ident => $body:expr) => {{
         match $id {
+            "C01" => { let $c: &'static props::cmdprops::CmdCheck = &props::cmdprops::C01; $body }
+            "C02" => { let $c: &'static props::cmdprops::CmdCheck = &props::cmdprops::C02; $body }
+            "C03" => { let $c: &'static props::cmdprops::CmdCheck = &props::cmdprops::C03; $body }
             "C04" => { let $c: &'static props::cmdprops::CmdCheck = &props::cmdprops::C04; $body }
+            "C05" => { let $c: &'static props::cmdprops::CmdCheck = &props::cmdprops::C05; $body }
+            "C06" => { let $c: &'static props::cmdprops::CmdCheck = &props::cmdprops::C06; $body }
+            "C07" => { let $c: &'static props::cmdprops::CmdCheck = &props::cmdprops::C07; $body }
+            "C09" => { let $c: &'static props::cmdprops::CmdCheck = &props::cmdprops::C09; $body }
+            "C13" => { let $c: &'static props::cmdprops::CmdCheck = &props::cmdprops::C13; $body }
             other => harness_error(&format!("unknown check {other}")),
         }
     }};
